@@ -52,6 +52,7 @@ pub enum Out<T> {
 pub trait Calc: AbsVal + 'static {
     const KEY: &'static str;
     const MANT: u32;
+    const NDERIV: usize;
     fn zero() -> Self;
     fn show(&self) -> String;
     /// registers are 1-based in events
@@ -76,6 +77,7 @@ macro_rules! impl_calc {
         impl Calc for $T {
             const KEY: &'static str = $key;
             const MANT: u32 = $mant;
+            const NDERIV: usize = <$T as DualNum<$F>>::NDERIV;
             fn zero() -> Self {
                 <$T as Zero>::zero()
             }
